@@ -117,6 +117,8 @@ class Interp:
         self.concrete_inputs = cfg.get('concrete_inputs')   # list of ints -> concrete replay mode
         self.cin_pos = 0
         self.trusted = set()
+        tr = os.environ.get('MIRSYM_TRACE')
+        self.trace_re = re.compile(tr) if tr else None
 
     # ------------------------------------------------------------------ tables
 
@@ -1254,6 +1256,12 @@ class Interp:
                     en = self.enum_variants(segs[-2])
                     if en and any(v == segs[-1] for v, _ in en):
                         name, variant = segs[-2], segs[-1]
+                elif segs[-1] in ('Less', 'Equal', 'Greater'):
+                    name, variant = 'Ordering', segs[-1]
+                elif segs[-1] in ('None', 'Some'):
+                    name, variant = 'Option', segs[-1]
+                elif segs[-1] in ('Ok', 'Err'):
+                    name, variant = 'Result', segs[-1]
                 rv.cache = (name, variant)
         name, variant = rv.cache
         return Adt(name, variant, [self.eval_operand(fr, o) for o in rv.c])
@@ -1269,9 +1277,12 @@ class Interp:
             raise PathEnd('inconclusive', 'call depth > 400')
         blocks = body.blocks
         bb = 0
+        trace = self.trace_re is not None and self.trace_re.search(name)
         while True:
             for st in blocks[bb]:
                 self.steps += 1
+                if trace:
+                    sys.stderr.write('[%s bb%d] %s\n' % (name[-40:], bb, st.text[:200]))
                 if self.steps > self.max_steps:
                     raise PathEnd('steplimit', 'step budget %d exhausted in %s' % (self.max_steps, name))
                 ty = type(st)
@@ -1279,6 +1290,8 @@ class Interp:
                     k = st.kind
                     if k == 'assign':
                         v = self.eval_rvalue(fr, st.b)
+                        if trace:
+                            sys.stderr.write('      := %r\n' % (v,))
                         pl = st.a
                         if not pl.proj:
                             fr.locals[pl.local] = v
